@@ -25,6 +25,24 @@ type CP struct {
 	NIn, NOut, NReg int
 	Init            []Instr
 	Loop            []Instr
+	// InPort/OutPort map the local port numbers used by the instructions and links to the port
+	// indices written in the source (nil = identity). A hole in the numbering gives the processor a
+	// port that no bond is attached to.
+	InPort, OutPort []int
+}
+
+func (cp *CP) inPort(k int) int {
+	if cp.InPort != nil {
+		return cp.InPort[k]
+	}
+	return k
+}
+
+func (cp *CP) outPort(k int) int {
+	if cp.OutPort != nil {
+		return cp.OutPort[k]
+	}
+	return k
 }
 
 // Endpoint: CP == -1 means the BondMachine's own (external) port Idx.
@@ -36,6 +54,9 @@ type Link struct {
 }
 
 type Net struct {
+	// MovImm prints the immediates with an even value as `mov rX, <imm>` instead of `rset rX, <imm>`
+	// (basm accepts that spelling only with dynamical matching disabled or a chooser option)
+	MovImm bool
 	Rsize  int
 	ExtIn  int
 	ExtOut int
@@ -59,6 +80,7 @@ type Options struct {
 	MinGap     int  // when !ZeroGap: at least this many non-I/O instructions between I/O on the same port
 	Rsizes     []int
 	Unbalanced bool // allow rate mismatches (may deadlock after a finite prefix)
+	PortGaps   bool     // sometimes leave a hole in a processor's port numbering (an unbonded port)
 	LitStyles  bool     // draw a notation (decimal, 0u, 0d, 0x, 0b) per immediate
 	ExtraOps   []string // further two-register ALU opcodes (printed "op rA, rB"); Eval does not know them
 }
@@ -166,6 +188,30 @@ func Generate(t *simrt.Tape, o Options) *Net {
 				pad()
 			}
 		}
+		if o.PortGaps && t.Draw(3) == 1 {
+			if cp.NIn > 0 && t.Draw(2) == 1 {
+				hole := t.Draw(cp.NIn + 1)
+				for k := 0; k < cp.NIn; k++ {
+					p := k
+					if k >= hole {
+						p++
+					}
+					cp.InPort = append(cp.InPort, p)
+				}
+				if hole == cp.NIn {
+					cp.InPort = nil // a hole after the last port is no hole
+				}
+			} else if cp.NOut > 0 {
+				hole := t.Draw(cp.NOut)
+				for k := 0; k < cp.NOut; k++ {
+					p := k
+					if k >= hole {
+						p++
+					}
+					cp.OutPort = append(cp.OutPort, p)
+				}
+			}
+		}
 		n.CPs = append(n.CPs, cp)
 	}
 	// dangling links become external outputs; unused external inputs are dropped
@@ -198,19 +244,31 @@ func Generate(t *simrt.Tape, o Options) *Net {
 
 // ---- printing -------------------------------------------------------------
 
-func instrBASM(in Instr, useMov bool) string {
+func instrBASM(in Instr, useMov bool, cps ...*CP) string {
+	ip, op := in.B, in.B
+	if len(cps) > 0 {
+		if in.Op == "in" {
+			ip = cps[0].inPort(in.B)
+		}
+		if in.Op == "out" {
+			op = cps[0].outPort(in.B)
+		}
+	}
 	switch in.Op {
 	case "in":
 		if useMov {
-			return fmt.Sprintf("mov r%d, i%d", in.A, in.B)
+			return fmt.Sprintf("mov r%d, i%d", in.A, ip)
 		}
-		return fmt.Sprintf("i2rw r%d, i%d", in.A, in.B)
+		return fmt.Sprintf("i2rw r%d, i%d", in.A, ip)
 	case "out":
 		if useMov {
-			return fmt.Sprintf("mov o%d, r%d", in.B, in.A)
+			return fmt.Sprintf("mov o%d, r%d", op, in.A)
 		}
-		return fmt.Sprintf("r2owa r%d, o%d", in.A, in.B)
+		return fmt.Sprintf("r2owa r%d, o%d", in.A, op)
 	case "rset":
+		if len(cps) > 1 && in.Imm%2 == 0 {
+			return fmt.Sprintf("mov r%d, %d", in.A, in.Imm)
+		}
 		switch in.Style {
 		case 1:
 			return fmt.Sprintf("rset r%d, 0u%d", in.A, in.Imm)
@@ -234,12 +292,16 @@ func (n *Net) BASM(useMov bool) string {
 	var b strings.Builder
 	for c, cp := range n.CPs {
 		fmt.Fprintf(&b, "%%section code%d .romtext iomode:sync\n\tentry _start\n_start:\n", c)
+		cpp := []*CP{&n.CPs[c]}
+		if n.MovImm {
+			cpp = append(cpp, nil) // marker: print even immediates through mov
+		}
 		for _, in := range cp.Init {
-			fmt.Fprintf(&b, "\t%s\n", instrBASM(in, useMov))
+			fmt.Fprintf(&b, "\t%s\n", instrBASM(in, useMov, cpp...))
 		}
 		fmt.Fprintf(&b, "_loop:\n")
 		for _, in := range cp.Loop {
-			fmt.Fprintf(&b, "\t%s\n", instrBASM(in, useMov))
+			fmt.Fprintf(&b, "\t%s\n", instrBASM(in, useMov, cpp...))
 		}
 		fmt.Fprintf(&b, "\tj _loop\n%%endsection\n\n")
 	}
@@ -250,7 +312,13 @@ func (n *Net) BASM(useMov bool) string {
 		if e.CP == -1 {
 			return fmt.Sprintf("cp:bm, type:%s, index:%d", dir, e.Idx)
 		}
-		return fmt.Sprintf("cp:cp%d, type:%s, index:%d", e.CP, dir, e.Idx)
+		idx := e.Idx
+		if dir == "input" {
+			idx = n.CPs[e.CP].inPort(e.Idx)
+		} else {
+			idx = n.CPs[e.CP].outPort(e.Idx)
+		}
+		return fmt.Sprintf("cp:cp%d, type:%s, index:%d", e.CP, dir, idx)
 	}
 	// basm pairs the two ioatt lines that carry the same link name, so a link
 	// with k consumers is written as k named pairs sharing the producer endpoint.
